@@ -44,12 +44,23 @@ def main():
     meta = json.load(open(os.path.join(src, "meta.json")))
     demo_cmd = meta["demo_cmd"]
     demo_cmd = re.sub(r"^\(at the repo root\)\s*", "", demo_cmd)
+    # normalise `cp <wherever>/<demo file> <dest>`: take the file from the seed dir, make sure dest dir exists
+    def fix_cp(m):
+        a, b = m.group(1), m.group(2)
+        base = os.path.basename(a)
+        if os.path.exists(os.path.join(src, base)):
+            a = os.path.join(os.path.abspath(src), base)
+        d = b if b.endswith("/") or not b.endswith(".rs") else os.path.dirname(b)
+        return "mkdir -p %s && cp %s %s" % (d, a, b)
+    demo_cmd = re.sub(r"\bcp\s+(\S+)\s+(\S+)", fix_cp, demo_cmd)
     res = {"name": name, "property": meta["property"]}
     rc, out = sh(demo_cmd)
     res["demo_without_change"] = {"exit": rc, "tail": out[-600:]}
     sh("git clean -fdq -e target")
-    rc_a, out_a = sh("git apply %s" % os.path.join(os.path.abspath(src), "patch.diff"))
+    pf = os.path.join(os.path.abspath(src), "patch.diff")
+    rc_a, out_a = sh("git apply %s || git apply --3way %s || patch -p1 --fuzz=3 < %s" % (pf, pf, pf))
     res["patch_applies"] = rc_a == 0
+    rc_d, cur_diff = sh("git diff -- . ':!*/tests/*'")
     rc2, out2 = sh(demo_cmd)
     res["demo_with_change"] = {"exit": rc2, "tail": out2[-900:]}
     sh("git clean -fdq -e target")
@@ -65,9 +76,11 @@ def main():
     if ok:
         os.makedirs(dst, exist_ok=True)
         for f in os.listdir(src):
-            if f.startswith("suite_"):
+            if f.startswith("suite"):
                 continue
             shutil.copy(os.path.join(src, f), dst)
+        # store the patch as it applies to the current HEAD of /repo
+        open(os.path.join(dst, "patch.diff"), "w").write(cur_diff)
         meta["demo_cmd"] = demo_cmd.replace(os.path.abspath(src), dst).replace(src.rstrip("/"), dst)
         meta["what_i_ran"] = ("tools/seed_confirm.py: demo on unchanged HEAD (exit %d), patch applied, demo with change (exit %d), "
                               "full `cargo test --workspace --no-fail-fast --offline` with change: %d passed / %d failed, identical test-by-test "
